@@ -210,7 +210,10 @@ def run_property(prop: Prop, tier: str, seed: int, replay: str | None = None) ->
         ev.cleanup()
 
     py_fail, py_cov = prop.py_sweeps(tier)
-    sweep_fail.extend(py_fail)
+    # an interpreter-side sweep names the concrete failing call: a violation with its input
+    for sf in py_fail:
+        out.violation(f"sweep: {sf}", {"kind": "interpreter-sweep", "detail": sf,
+                                       "replay": "the failing call and its arguments are spelled out in 'detail'"}, True)
 
     # ---- a proof / correspondence / sweep broke but no generated case violates the property: look further ----
     searched = 0
@@ -238,7 +241,7 @@ def run_property(prop: Prop, tier: str, seed: int, replay: str | None = None) ->
                 break
 
     # ---- verdicts for proof / correspondence breaks ----
-    have_input = bool(unknown_oracle)
+    have_input = bool(unknown_oracle) or bool(py_fail)
     if not proof.ok:
         what = "proof obligation no longer checks: " + "; ".join(proof.problems)
         if not have_input:
